@@ -147,10 +147,32 @@ impl E {
             E::Var(i) => LinearCombination::from(v[*i]),
             E::Const(c) => LinearCombination::from(c.to_f::<F>()),
             E::Default => LinearCombination::default(),
-            E::FromIterOwned(t) => t.iter().map(|(i, c)| (v[*i], c.to_f::<F>())).collect(),
+            E::FromIterOwned(t) => {
+                // the term list reaches `collect` through iterators of different kinds, also ones
+                // whose size hint is not exact
+                let owned: Vec<(Variable<F>, F)> = t.iter().map(|(i, c)| (v[*i], c.to_f::<F>())).collect();
+                match t.len() % 5 {
+                    0 => owned.into_iter().collect(),
+                    1 => owned.into_iter().filter(|_| true).collect(),
+                    2 => owned.into_iter().flat_map(|x| Some(x)).collect(),
+                    3 => {
+                        let mut it = owned.into_iter();
+                        let first = it.next();
+                        first.into_iter().chain(it.skip_while(|_| false)).collect()
+                    }
+                    _ => {
+                        let mut it = owned.into_iter();
+                        std::iter::from_fn(move || it.next()).collect()
+                    }
+                }
+            }
             E::FromIterRef(t) => {
                 let owned: Vec<(Variable<F>, F)> = t.iter().map(|(i, c)| (v[*i], c.to_f::<F>())).collect();
-                owned.iter().collect()
+                match t.len() % 3 {
+                    0 => owned.iter().collect(),
+                    1 => owned.iter().filter(|_| true).collect(),
+                    _ => owned.iter().take_while(|_| true).collect(),
+                }
             }
             E::VarNeg(i) => -v[*i],
             E::VarMul(i, c) => v[*i] * c.to_f::<F>(),
